@@ -172,7 +172,7 @@ func ruleC11SameValue(c *Ctx) {
 	}
 	name := fnName(emit)
 	st := m.T.Underlying().(*types.Struct)
-	valName := st.Field(m.ValueIdx).Name()
+	valName := vname(st.Field(m.ValueIdx))
 	var loc, format, row *ssa.Call
 	allInstrs(emit, func(in ssa.Instruction) {
 		call, ok := in.(*ssa.Call)
